@@ -115,9 +115,11 @@ def mapCase (id : String) (payload : List Sexp) : List String :=
                  (spec15 c.inp ++ specRT c.inp ++ specPart c.inp c.srcSlots c.destSlots c.masks c.fmasks)
                  (region05 c.inp)   -- obs05 + write counts + round trip + partially nil chains
     | "C01" => both id (obs01 c.inp) allOk (region01 c.inp)
-    | "C15" => both id (obs15 c.inp) (spec15 c.inp) (region15 c.inp)
-    | "C09" => both id (obs09 c.inp c.srcSlots c.destSlots c.masks c.fmasks)
-                 (spec09 c.inp c.srcSlots c.destSlots c.masks c.fmasks) (region09 c.inp)
+    | "C15" => both id (obs15 c.inp ++ obsPart c.inp c.srcSlots c.destSlots c.masks c.fmasks ++ (if modelCompiles c.inp then ctorAlloc c.inp else []))
+                 (spec15 c.inp ++ specPart c.inp c.srcSlots c.destSlots c.masks c.fmasks ++ ctorAlloc c.inp)
+                 (region15 c.inp)   -- + partially nil plain side, + what the constructor allocates
+    | "C09" => both id (obs09 c.inp c.srcSlots c.destSlots c.masks c.fmasks ++ (if modelCompiles c.inp then ctorAlloc c.inp else []))
+                 (spec09 c.inp c.srcSlots c.destSlots c.masks c.fmasks ++ ctorAlloc c.inp) (region09n c.inp)
     | _ => err id "unknown-prop"
 
 end ShootVerif.Drive
